@@ -78,6 +78,9 @@ type dmSock struct {
 	protos     int           // network protocols its reservation covers: 1 IPv4, 3 IPv4+IPv6 (dual-stack IPv6 socket); 0 means 1
 	fake       *fakeEP       // registered directly with the stack's demultiplexer (no socket, no port reservation)
 	groups     []dmMember    // multicast groups this UDP socket has joined (and not left)
+	closing    bool          // an actively opened connection the application has closed, whose closing exchange the peer has completed
+	boundOnly  bool          // a TCP socket that is bound (holds its port) but neither listens nor is connected: its Connect was refused
+	reopen     *Step         // the step that opened this actively opened connection (the same open again is refused locally)
 }
 
 // dmMember: a multicast group joined through an interface (0-based). Joining assigns the group address to
@@ -128,6 +131,7 @@ type dmWorld struct {
 	prop       string
 	cfg        DemuxCfg
 	link2      *Link
+	subnetOff  bool // (Subnet configurations) the subnet is currently removed from NIC 1
 	socks      []*dmSock
 	npkt       int
 }
@@ -147,7 +151,7 @@ func (w *dmWorld) owned(nic int, dst tcpip.Address) bool {
 	if nic == 0 && w.cfg.Promisc {
 		return true
 	}
-	if nic == 0 && w.cfg.Subnet && len(dst) == 4 && dst[0] == 10 && dst[1] == 0 && dst[2] == 0 {
+	if nic == 0 && w.cfg.Subnet && !w.subnetOff && len(dst) == 4 && dst[0] == 10 && dst[1] == 0 && dst[2] == 0 {
 		return true
 	}
 	return false
@@ -169,7 +173,7 @@ func (w *dmWorld) winner(isTCP bool, nic int, dst tcpip.Address, dport uint16, s
 	var best *dmSock
 	score := -1
 	for _, s := range w.socks {
-		if s.closed || s.tcp != isTCP || s.lport != dport {
+		if s.closed || s.tcp != isTCP || s.lport != dport || s.boundOnly {
 			continue
 		}
 		if s.nic != 0 && s.nic != nic+1 {
@@ -320,6 +324,12 @@ func (w *dmWorld) activeOpen(ai, pi, ri, mode int) {
 	w.Probes["tcp_active_opens"]++
 	if e != tcpip.ErrConnectStarted {
 		w.Probes["tcp_active_open_refused_locally"]++
+		if bound && !dual && len(w.socks) < 12 {
+			// the socket stays open: it is still bound, so it still holds its port
+			kept = true
+			w.socks = append(w.socks, &dmSock{tcp: true, ep: ep, laddr: dmLocal[ai%3], lport: lport, resAddr: dmLocal[ai%3], reserves: true, boundOnly: true})
+			w.Probes["tcp_sockets_left_bound_after_a_refused_connect"]++
+		}
 		return
 	}
 	for _, d := range w.Take() {
@@ -360,7 +370,8 @@ func (w *dmWorld) activeOpen(ai, pi, ri, mode int) {
 				p.Mine(w.Take())
 				if _, e := ep.GetRemoteAddress(); e == nil {
 					kept = true
-					w.socks = append(w.socks, &dmSock{tcp: true, ep: ep, laddr: la, lport: sp, raddr: ra, rport: rp, peer: p, activeWild: wild})
+					w.socks = append(w.socks, &dmSock{tcp: true, ep: ep, laddr: la, lport: sp, raddr: ra, rport: rp, peer: p, activeWild: wild,
+						reopen: &Step{Op: "open", A: 5, B: ai, C: pi, D: int64(ri%3 + 3*mode)}})
 					w.Probes["tcp_connections_opened_actively"]++
 					return
 				}
@@ -761,8 +772,47 @@ func (w *dmWorld) apply(s Step) {
 		w.Settle()
 	case "close":
 		if s.A >= 0 && s.A < len(w.socks) && !w.socks[s.A].closed {
-			w.closeSock(w.socks[s.A])
+			sk := w.socks[s.A]
+			w.Take()
+			w.closeSock(sk)
 			w.Settle()
+			if sk.tcp && sk.peer != nil && !sk.listener && sk.fake == nil {
+				// the application is done; the connection is not: its closing exchange still belongs to it. The
+				// peer acknowledges the FIN and sends its own - answered by an ACK from the connection, not by a
+				// reset as if nobody owned the 4-tuple (and not by whoever else listens on that port)
+				p := sk.peer
+				var fin *codec.TCP
+				for _, t := range p.Mine(w.Take()) {
+					if t.Flags&codec.FlagFIN != 0 {
+						fin = t
+					}
+				}
+				if fin != nil {
+					p.RcvNxt = fin.Seq + uint32(len(fin.Payload)) + 1
+					p.Send(codec.FlagFIN|codec.FlagACK, p.SndNxt, p.RcvNxt, 65535, nil, nil)
+					nrst, nack := 0, 0
+					for _, t := range p.Mine(w.Take()) {
+						if t.Flags&codec.FlagRST != 0 {
+							nrst++
+						} else if t.Flags&codec.FlagACK != 0 && t.Ack == p.SndNxt+1 {
+							nack++
+						}
+					}
+					w.Probes["closing_exchange_completed_by_the_peer"]++
+					if nrst > 0 || nack == 0 {
+						why := ""
+						if sk.activeWild {
+							for _, o := range w.socks {
+								if !o.closed && o.listener && o.laddr == sk.laddr && o.lport == sk.lport {
+									why = " [the connection was opened actively from a socket bound to the wildcard address, and a listener bound to exactly this address and port is open]"
+								}
+							}
+						}
+						w.demuxFail("closing-connection-not-served", "connection % x:%d <-> % x:%d was closed by the application and sent its FIN; the peer's FIN-ACK drew %d resets and %d acknowledgements of it - the connection owns its 4-tuple until the exchange is over%s", []byte(sk.laddr), sk.lport, []byte(sk.raddr), sk.rport, nrst, nack, why)
+					}
+					p.SndNxt++
+				}
+			}
 			w.Take()
 		}
 	case "reopen":
@@ -861,6 +911,25 @@ func (w *dmWorld) apply(s Step) {
 		w.Take()
 	case "udp":
 		w.inject(false, s.A, s.B, s.C, int(s.D))
+	case "subnet":
+		// (Subnet configurations) the subnet is removed from the interface, or added again: unassigned addresses
+		// inside it are served exactly while it is there - also those that were hit before
+		if !w.cfg.Subnet {
+			break
+		}
+		sn, err := tcpip.NewSubnet("\x0a\x00\x00\x00", "\xff\xff\xff\x00")
+		if err != nil {
+			break
+		}
+		if w.subnetOff {
+			if e := w.S.S.AddSubnet(1, ipv4.ProtocolNumber, sn); e == nil {
+				w.subnetOff = false
+			}
+		} else {
+			w.S.S.RemoveSubnet(1, sn)
+			w.subnetOff = true
+			w.Probes["subnet_removed"]++
+		}
 	case "racereg":
 		// two endpoints are registered under one and the same identity at the same time (two goroutines):
 		// whoever comes second is refused - never two owners of one identity
@@ -975,6 +1044,14 @@ func (w *dmWorld) next() Step {
 	weights := []int{6, 1, 10, 0, 1, 1, 1, 1}
 	if w.cfg.Binds {
 		weights = []int{8, 5, 3, 0, 1, 4, 1, 1}
+	}
+	if w.cfg.Subnet && r.Chance(0.05) {
+		return Step{Op: "subnet"}
+	}
+	for _, sk := range w.socks {
+		if !sk.closed && sk.reopen != nil && r.Chance(0.04) {
+			return *sk.reopen // the same active open once more: its 4-tuple is taken, the Connect is refused locally
+		}
 	}
 	if len(w.socks) < 10 && r.Chance(0.03) {
 		return Step{Op: "racereg", A: r.Intn(2), B: r.Intn(3)}
